@@ -77,7 +77,7 @@ _SEAM_CLASS = {"open_r": "r", "read": "r", "stat": "r", "getcwd": "r", "open_w":
 
 
 class Inode:
-    __slots__ = ("ino", "kind", "data", "target", "entries", "nlink", "epoch", "dirty_from", "mtime")
+    __slots__ = ("ino", "kind", "data", "target", "entries", "nlink", "epoch", "dirty_from", "mtime", "perm")
 
     def __init__(self, ino: int, kind: str):
         self.ino = ino
@@ -89,6 +89,7 @@ class Inode:
         self.epoch = 0  # power epoch in which the inode was created
         self.dirty_from = None  # (old_data) if modified since the last sync point
         self.mtime = 0.0
+        self.perm = None  # permission bits if chmod was called (informational: access is not enforced)
 
 
 class SimStat:
@@ -100,8 +101,8 @@ class SimStat:
         self.st_nlink = node.nlink
         self.st_size = len(node.data) if node.kind == "f" else 0
         self.st_mode = {
-            "f": _stat.S_IFREG | 0o644,
-            "d": _stat.S_IFDIR | 0o755,
+            "f": _stat.S_IFREG | (0o644 if node.perm is None else node.perm),
+            "d": _stat.S_IFDIR | (0o755 if node.perm is None else node.perm),
             "l": _stat.S_IFLNK | 0o777,
         }[node.kind]
         self.st_uid = self.st_gid = 1000
@@ -735,6 +736,58 @@ class SimFS:
         sf.encoding = encoding or "utf-8"
         sf.errors = errors or "strict"
         return sf
+
+    def chmod(self, path, mode, *, dir_fd=None, follow_symlinks=True):
+        if isinstance(path, int):
+            node = self._fd(path).node
+        else:
+            p = _real_os.fspath(path)
+            self._seam("open_w", p)
+            node = self._walk(p, follow_last=follow_symlinks)
+        node.perm = mode & 0o7777
+
+    def chown(self, path, uid, gid, *, dir_fd=None, follow_symlinks=True):
+        if not isinstance(path, int):
+            p = _real_os.fspath(path)
+            self._seam("open_w", p)
+            self._walk(p, follow_last=follow_symlinks)
+
+    def symlink(self, src, dst, target_is_directory=False, *, dir_fd=None):
+        d = _real_os.fspath(dst)
+        self._seam("open_w", d)
+        parent, name = self._walk(d, want_parent=True)
+        if name in parent.entries:
+            raise oserr(errno.EEXIST, _real_os.fspath(src), d)
+        node = self._new("l")
+        node.target = _real_os.fspath(src)
+        node.nlink = 1
+        parent.entries[name] = node.ino
+
+    def link(self, src, dst, *, src_dir_fd=None, dst_dir_fd=None, follow_symlinks=True):
+        s_, d = _real_os.fspath(src), _real_os.fspath(dst)
+        self._seam("open_w", d)
+        node = self._walk(s_, follow_last=follow_symlinks)
+        if node.kind == "d":
+            raise oserr(errno.EPERM, s_, d)
+        parent, name = self._walk(d, want_parent=True)
+        if name in parent.entries:
+            raise oserr(errno.EEXIST, s_, d)
+        parent.entries[name] = node.ino
+        node.nlink += 1
+
+    def truncate(self, path, length):
+        if isinstance(path, int):
+            node = self._fd(path).node
+        else:
+            p = _real_os.fspath(path)
+            self._seam("open_w", p)
+            node = self._walk(p)
+        if node.kind != "f":
+            raise oserr(errno.EISDIR)
+        if node.dirty_from is None:
+            node.dirty_from = node.data
+        node.data = node.data[:length] + b"\0" * max(0, length - len(node.data))
+        node.mtime = self.now()
 
     def utime(self, path, times=None, *, ns=None, dir_fd=None, follow_symlinks=True):
         p = _real_os.fspath(path)
